@@ -22,14 +22,27 @@ class Stream:
 
     def predicate(self, op, impl):
         """the property's own predicate evaluated on an implementation output; None = holds / not applicable,
-        else a short reason.  Evaluated on EVERY op, not only on mismatches."""
+        else a short reason (str) or dict(what=..., signature=...).  Evaluated on EVERY op, not only on
+        mismatches.  The default recognises the marker a harness appends when it evaluated the property's
+        predicate itself on the real code's output: `<result>!VIOL:<reason>[#<signature>]`."""
+        if "!VIOL:" in impl:
+            r = impl.split("!VIOL:", 1)[1]
+            if "#" in r:
+                what, sig = r.split("#", 1)
+                return {"what": what, "signature": sig}
+            return r
         return None
+
+    def case_predicate(self, ops, impls):
+        """property predicate over a whole case (the ops between two `reset` lines); returns a list of
+        failures (str or dict(what, signature, ...))"""
+        return []
 
     def nontrivial(self, op, impl):
         return not impl.startswith("err") and impl != "bad-op"
 
     def norm_impl(self, op, impl):
-        return impl
+        return impl.split("!VIOL:", 1)[0]
 
     def norm_model(self, op, model):
         return model
@@ -55,14 +68,60 @@ class PropCheck:
         """optional: regenerate Gen files etc. May raise TieBroken."""
         return None
 
+    search_seeds = 2           # extra seeds tried by the default search
+    search_tier = "thorough"
+
     def search(self, ctx, broken):
-        """directed search for a concrete failing input when an obligation or the correspondence broke.
-        Returns a list of concrete failures: dict(what, input, stream?)"""
-        return []
+        """Search for a concrete failing input when an obligation or the correspondence broke: evaluate the
+        property predicate (never the model comparison) on implementation outputs of further harness runs
+        (wider tier, other seeds).  Property modules override/extend this with directed generators.
+        Returns a list of concrete failures: dict(what, input, stream?, signature?)"""
+        found = []
+        t0 = time.time()
+        for st in self.streams:
+            key = st.harness["name"]
+            binp = ctx.get("built", {}).get(key)
+            if not binp:
+                continue
+            for k in range(1, self.search_seeds + 1):
+                if found or time.time() - t0 > 900:
+                    break
+                seed = str(int(ctx["seed"]) + 7919 * k)
+                trace = os.path.join(core.WORK, "trace-%s-%s-search%d.tsv" % (self.pid, st.name, k))
+                try:
+                    core.run_harness(binp, st.testname, st.cwd(), trace, st.env(self.search_tier, seed),
+                                     timeout=st.timeout, test=st.harness.get("test", True))
+                    ops, impl = core.read_trace(trace)
+                except TieBroken:
+                    continue
+                found += eval_predicates(st, ops, impl)[:3]
+        return found
 
     def extra(self, ctx):
         """optional additional checks; returns dict(concrete=[...], broken=[...], stats={})"""
         return None
+
+
+def eval_predicates(st, ops, impl):
+    """evaluate the per-op and per-case property predicates of a stream on implementation outputs"""
+    concrete = []
+    cur_o, cur_i = [], []
+    for o, a in list(zip(ops, impl)) + [("reset", "reset")]:
+        if o == "reset":
+            if cur_o:
+                for why in st.case_predicate(cur_o, cur_i) or []:
+                    c = {"stream": st.name, "input": {"ops": cur_o[-200:], "impl": cur_i[-200:]}}
+                    c.update(why if isinstance(why, dict) else {"what": why})
+                    concrete.append(c)
+            cur_o, cur_i = [], []
+            continue
+        cur_o.append(o); cur_i.append(a)
+        why = st.predicate(o, a)
+        if why:
+            c = {"stream": st.name, "input": {"op": o, "impl": a}}
+            c.update(why if isinstance(why, dict) else {"what": why})
+            concrete.append(c)
+    return concrete
 
 
 def sample_cases(ops, impl, k=4):
@@ -112,6 +171,7 @@ def run_check(chk, tier, seed, replay=None):
         driver_ok = False
         broken.append({"kind": "correspondence", "name": e.what, "detail": e.output[-3000:]})
     built = {}
+    ctx["built"] = built
     for st in chk.streams:
         sname = st.name
         try:
@@ -140,9 +200,7 @@ def run_check(chk, tier, seed, replay=None):
                 h = hash(o)
                 if (sname, h) not in distinct:
                     distinct.add((sname, h)); nt += 1
-            why = st.predicate(o, a)
-            if why:
-                concrete.append({"stream": sname, "what": why, "input": {"op": o, "impl": a}})
+        concrete += eval_predicates(st, d["ops"], d["impl"])
         cov_streams[sname] = {"evaluations": d["evaluations"], "distinct_nontrivial": nt,
                               "mismatches": d["n_mismatches"], "op_kinds": kinds, "rule": st.rule}
         samples += [dict(s, stream=sname) for s in sample_cases(d["ops"], d["impl"], 3)]
@@ -168,7 +226,7 @@ def run_check(chk, tier, seed, replay=None):
         samples += ex.get("samples", [])
 
     # (5) decide
-    if broken:
+    if broken and not concrete:
         try:
             found = chk.search(ctx, broken) or []
         except Exception:
